@@ -75,11 +75,13 @@ func (e *Engine) verifyFunction(name string, spec *FuncSpec) (fc *FnCtx, err err
 	// escaped panics
 	if len(fr.panics) > 0 && !spec.MayPanic {
 		var pcs []Term
+		var whys []string
 		for _, p := range fr.panics {
 			pcs = append(pcs, p.pc)
+			whys = append(whys, p.why)
 		}
 		ps := &State{pc: tTrue, cells: map[cellKey]Val{}, heaps: map[string]Term{}}
-		fc.oblige(ps, "nopanic", "", tNot(tOr(pcs...)), fn.Pos(), nil, "no panic escapes the function")
+		fc.oblige(ps, "nopanic", "", tNot(tOr(pcs...)), fn.Pos(), nil, "no panic escapes the function; possible origins: "+strings.Join(whys, "; "))
 	}
 	if out != nil {
 		var rv Val
